@@ -5,20 +5,13 @@ namespace MindsVerif.Plan
 /-! ### input well-formedness and the excluded class -/
 
 /-- what the model's inputs must satisfy: `pre` references exist already when join planning starts
-(`base` = length of the plan at that moment); blocks are well-formed plans returning one of their steps -/
-def operandOK (base : Nat) : Operand → Bool
-  | .table _ _ pre => pre.all (fun k => decide (k < base))
-  | .predictor _ _ => true
-  | .subselect _ b r => stepsOK 0 b && decide (r < b.length)
+(`base` = length of the plan at that moment); sub-select planners satisfy C09 themselves -/
+def OperandOK (base : Nat) : Operand → Prop
+  | .table _ _ pre => pre.all (refOKTop base) = true
+  | .predictor _ _ => True
+  | .subselect _ f => Good base f
 
-def treeOK (base : Nat) : JT → Bool
-  | .leaf o => operandOK base o
-  | .join l r => treeOK base l && treeOK base r
-  | .bad => true
-
-def itemOK (base : Nat) : Item → Bool
-  | .op _ o => operandOK base o
-  | .jn => true
+def TreeOK (base : Nat) (t : JT) : Prop := leavesAll (OperandOK base) t
 
 /-- the open-partition fall-through cannot happen: no table / sub-select operand after a model that
 carries `partition_size` (`opened` = a partition may already be open) -/
@@ -27,7 +20,7 @@ def noFallThrough : Bool → List Item → Bool
   | opened, .jn :: r => noFallThrough opened r
   | opened, .op _ (.predictor _ ps) :: r => noFallThrough (opened || ps) r
   | opened, .op _ (.table _ _ _) :: r => !opened && noFallThrough opened r
-  | opened, .op _ (.subselect _ _ _) :: r => !opened && noFallThrough opened r
+  | opened, .op _ (.subselect _ _) :: r => !opened && noFallThrough opened r
 
 /-- the join sequence the loop of `plan_join_tables` iterates over (`[]` when `get_join_sequence` raises) -/
 def seqOf (t : JT) : List Item :=
@@ -35,49 +28,14 @@ def seqOf (t : JT) : List Item :=
   | .ok (s, _) => swapModelFirst s
   | .error _ => []
 
-theorem getJoinSequence_itemOK (base : Nat) (t : JT) (n : Nat) (s : List Item) (m : Nat)
-    (h : getJoinSequence t n = .ok (s, m)) (ht : treeOK base t = true) :
-    s.all (itemOK base) = true := by
-  induction t generalizing n s m with
-  | leaf o =>
-    simp [getJoinSequence] at h
-    simp [← h.1, itemOK]; exact ht
-  | bad => simp [getJoinSequence] at h
-  | join l r ihl ihr =>
-    unfold getJoinSequence at h
-    simp only [treeOK, Bool.and_eq_true] at ht
-    cases hl : getJoinSequence l n with
-    | error e => simp [hl] at h
-    | ok p1 =>
-      obtain ⟨s1, n1⟩ := p1
-      cases hr : getJoinSequence r n1 with
-      | error e => simp [hl, hr] at h
-      | ok p2 =>
-        obtain ⟨s2, n2⟩ := p2
-        simp only [hl, hr] at h
-        have h1 := ihl n s1 n1 hl ht.1
-        have h2 := ihr n1 s2 n2 hr ht.2
-        split at h
-        · rename_i x
-          simp at h
-          rw [← h.1]
-          simp only [List.all_append, h1, List.all_cons, List.all_nil, Bool.and_true, Bool.true_and]
-          simpa [itemOK] using h2
-        · simp at h
-
-theorem swapModelFirst_all (f : Item → Bool) (s : List Item) (h : s.all f = true) :
-    (swapModelFirst s).all f = true := by
-  unfold swapModelFirst
-  split
-  · simp only [List.all_cons, List.all_nil, Bool.and_true, Bool.and_eq_true] at h ⊢
-    exact ⟨h.2.1, h.1, h.2.2⟩
-  · exact h
-
-theorem seqOf_itemOK (base : Nat) (t : JT) (ht : treeOK base t = true) : (seqOf t).all (itemOK base) = true := by
+theorem seqOf_all (P : Operand → Prop) (t : JT) (ht : leavesAll P t) : ∀ i o, Item.op i o ∈ seqOf t → P o := by
   unfold seqOf
   cases h : getJoinSequence t 0 with
-  | error e => rfl
-  | ok p => obtain ⟨s, m⟩ := p; exact swapModelFirst_all _ _ (getJoinSequence_itemOK base t 0 s m h ht)
+  | error e => intro i o hm; cases hm
+  | ok p =>
+    obtain ⟨s, m⟩ := p
+    intro i o hm
+    exact getJoinSequence_all P t 0 s m h ht i o (swapModelFirst_mem _ _ hm)
 
 /-! ### the state invariant between (operand, join) pairs -/
 
@@ -142,7 +100,7 @@ theorem addFilterSteps_closed (fixed : Bool) (dc : List Nat) (st : St) (acc : Li
 coincide there): table and sub-select -/
 theorem op_closed (fixed : Bool) (base : Nat) (st : St) (i : Nat) (o : Operand)
     (hp : st.partition = none) (hok : stepsOK 0 st.plan = true) (hf : FetchedOK st)
-    (hb : base ≤ st.plan.length) (ho : operandOK base o = true)
+    (hb : base ≤ st.plan.length) (ho : OperandOK base o)
     (hnp : ∀ ts ps, o ≠ .predictor ts ps) (st' : St) (h : stepItem fixed st (.op i o) = .ok st') :
     ∃ ext n, st'.plan = st.plan ++ ext ∧ st'.stack = .top n :: st.stack ∧ n + 1 = st'.plan.length ∧
       st.plan.length ≤ n ∧ st'.partition = none ∧ stepsOK 0 st'.plan = true ∧ FetchedOK st' := by
@@ -155,19 +113,15 @@ theorem op_closed (fixed : Bool) (base : Nat) (st : St) (i : Nat) (o : Operand)
     rw [addPlanStep_none fixed _ _ _ _ hp1, planAdd_eq] at h
     simp only [e1] at h
     subst h
-    have hrefs : (pre.map SNum.top ++ (addFilterSteps fixed dc st []).2).all
+    have hrefs : (pre ++ (addFilterSteps fixed dc st []).2).all
         (refOKTop (st.plan ++ ext).length) = true := by
       simp only [List.all_append, e3, Bool.and_true]
-      simp only [operandOK] at ho
+      simp only [OperandOK] at ho
       rw [List.all_eq_true] at ho ⊢
       intro x hx
-      simp only [List.mem_map] at hx
-      obtain ⟨k, hk, rfl⟩ := hx
-      have := ho k hk
-      simp [refOKTop] at this ⊢
-      omega
+      exact refOKTop_mono (by simp; omega) x (ho x hx)
     refine ⟨ext ++ [⟨if cte then .subselect else .fetch, some (.top (st.plan ++ ext).length),
-        pre.map SNum.top ++ (addFilterSteps fixed dc st []).2, []⟩], (st.plan ++ ext).length, by simp, rfl,
+        pre ++ (addFilterSteps fixed dc st []).2, []⟩], (st.plan ++ ext).length, by simp, rfl,
       by simp [Nat.add_assoc], by simp, hp, ?_, ?_⟩
     · exact stepsOK_snoc_fresh _ _ _ e2 hrefs
     · intro t r hr
@@ -175,24 +129,28 @@ theorem op_closed (fixed : Bool) (base : Nat) (st : St) (i : Nat) (o : Operand)
       split at hr
       · simp at hr; subst hr; simp [refOKTop]
       · exact refOKTop_mono (by simp) r (hf t r hr)
-  | subselect al b r =>
+  | subselect al f =>
     simp only [stepItem, processSubselect] at h
-    cases al with
-    | false => simp at h
-    | true =>
-      simp only [if_true, Except.ok.injEq] at h
-      rw [addPlanStep_none fixed _ _ _ _ (by exact hp), planAdd_eq] at h
-      simp only at h
-      subst h
-      simp only [operandOK, Bool.and_eq_true, decide_eq_true_eq] at ho
-      have hokb : stepsOK 0 (appendBlock st.plan b) = true := stepsOK_appendBlock _ _ hok ho.1
-      refine ⟨b.map (shiftStep st.plan.length) ++
-          [⟨.subselect, some (.top (appendBlock st.plan b).length), [.top (st.plan.length + r)], []⟩],
-        (appendBlock st.plan b).length, ?_, rfl, by simp, ?_, hp, ?_, ?_⟩
-      · simp [appendBlock]
-      · simp [appendBlock_length]
-      · exact stepsOK_snoc_fresh _ _ _ hokb (by simp [refOKTop, appendBlock_length]; omega)
-      · exact FetchedOK_mono st _ rfl (by simp [appendBlock_length]; omega) hf
+    have hg := ho st.plan hb hok
+    cases hs : f st.plan with
+    | error e => simp [hs] at h
+    | ok r =>
+      obtain ⟨plan1, x⟩ := r
+      rw [hs] at hg
+      obtain ⟨g1, g2, g3, g4⟩ := hg
+      simp only [hs] at h
+      cases al with
+      | false => simp at h
+      | true =>
+        simp only [if_true, Except.ok.injEq] at h
+        rw [addPlanStep_none fixed _ _ _ _ (by exact hp), planAdd_eq] at h
+        simp only at h
+        subst h
+        obtain ⟨t, rfl⟩ := g2
+        refine ⟨t ++ [⟨.subselect, some (.top (st.plan ++ t).length), [x], []⟩],
+          (st.plan ++ t).length, by simp, rfl, by simp [Nat.add_assoc], by simp, hp, ?_, ?_⟩
+        · exact stepsOK_snoc_fresh _ _ _ g1 (by subst g4; simp [refOKTop] at g3 ⊢; omega)
+        · exact FetchedOK_mono st _ rfl (by simp) hf
 
 /-- a top-level join of two stacked top-level results -/
 theorem jn_closed (fixed : Bool) (st : St) (r l : SNum) (rest : List SNum)
